@@ -178,6 +178,10 @@ class Ctx:
         caller that depends on one cannot be proved and its failure is reported as undecided, never as a violation."""
         out = ['// @HELPERS (auto-included callees; none on the pinned tree)']
         for (rel, impl_hdr, name, kw) in self.helper_requests:
+            if kw == 'use':
+                out.append('#[allow(unused_imports)] %s   // AUTO: standard-library import of %s that the edit relies on' % (name, rel))
+                self.note('AUTO import: ' + name)
+                continue
             path = ('impl %s :: %s %s' % (impl_hdr, kw, name)) if impl_hdr else ('%s %s' % (kw, name))
             e = extract(self.repo, rel, path, key='helper:' + name)
             e.strip_docs(); e.inner_attrs(); e.drop_log_macros()
